@@ -218,13 +218,13 @@ def materialise(thorough, families):
 
 def run(R):
     shards = []
-    for fam, n in (('valid', 16), ('fault', 32), ('shape', 16), ('suite', 4), ('envelope', 16), ('mutant', 48), ('hostile', 32)):
+    for fam, n in (('valid', 16), ('fault', 32), ('shape', 16), ('suite', 4), ('envelope', 16), ('ta1', 4), ('mutant', 48), ('hostile', 32)):
         for p in range(n):
             shards.append((fam, p, n, R.thorough))
     materialise(R.thorough, sorted(set(s[0] for s in shards)))
     R.cov['documents_per_family'] = dict((k, len(v)) for k, v in ITEMS.items())
     R.pmap(work, shards)
-    R.bounds = {'corpus': 'the C05 corpora plus hostile-echo documents: 4 maps x 10 payloads containing ~ * : ^ LF x (6 free-text elements singly, 12 at once) and 8 payloads x 9 echoed envelope fields, 3 and 4 groups, all in ! | > delimiters'}
+    R.bounds = {'corpus': 'the C05 corpora (incl. TA1-requesting interchanges) plus hostile-echo documents: 4 maps x 10 payloads containing ~ * : ^ LF x (6 free-text elements singly, 12 at once) and 8 payloads x 9 echoed envelope fields, 3 and 4 groups, all in ! | > delimiters'}
     R.assumptions = ['an acknowledgement is judged only when validation completed and something was written',
                      're-validation may reject the acknowledgement only through element errors on fields that echo source data (AK1/AK2/AK3-01/AK4-02,04, ISA/GS ids)']
     return R.finish(LEVEL, 'one document per execution; distinct = (family, kind)', exhaustive=True)
